@@ -224,7 +224,8 @@ class M(Model):
         if len(live) and len(np.unique(live, axis=0)) != len(live):
             out.append(("duplicate live pellet rows", ""))
         if prev is None:
-            if int(s.score) != 0:
+            # (prev is None also for a deep start, whose timestep is MID: the score of a reset state only)
+            if ts is not None and int(ts.step_type) == 0 and int(s.score) != 0:
                 out.append(("initial score != 0", str(int(s.score))))
         else:
             if not np.array_equal(np.asarray(prev.grid), grid):
